@@ -234,6 +234,8 @@ pub struct Visit<'a, 'b, W> {
     pub ent: Bits,
     pub dir: Option<EntityDirectAny>,
     pub cols: &'a mut [ColRef<'b>],
+    /// `MatchedArchetype::ARCHETYPE_ID` as the closure body sees it
+    pub matched: u8,
 }
 
 crate::sx_enum! {
